@@ -629,6 +629,18 @@ def coq_str(s):
     return '"%s"' % s
 
 
+def bound_pv(x):
+    """a statistics bound as the model sees it: a NaN / NaT bound (footers of other writers) bounds nothing and enters as absent -
+    the reading under which "statistics are valid bounds" can hold at all; the code must treat it the same way (it does since the
+    fix `a NaN / NaT statistic bounds nothing`), else the correspondences disagree"""
+    try:
+        if x is not None and not isinstance(x, (str, bytes, list, tuple)) and bool(x != x):
+            return "PNone"
+    except Exception:      # noqa
+        pass
+    return to_pv(x)
+
+
 def scalar_of_bound(v):
     """what filter_out_stats hands to filter_val for a bound, as a Python scalar (None when absent)"""
     if v is None:
@@ -681,7 +693,7 @@ def model_rowgroups(pf, dnf, rows=None, with_cells=None):
                 st = "None"
             else:
                 st = "(Some {| st_null_count := %s; st_min := %s; st_max := %s |})" % (
-                    "None" if b[0] is None else "(Some (%d))" % b[0], to_pv(scalar_of_bound(b[1])), to_pv(scalar_of_bound(b[2])))
+                    "None" if b[0] is None else "(Some (%d))" % b[0], bound_pv(scalar_of_bound(b[1])), bound_pv(scalar_of_bound(b[2])))
             cols.append("{| c_name := %s; c_num_values := %d; c_stats := %s |}" % (coq_str(name), column.meta_data.num_values, st))
         fp = rg.columns[0].file_path
         if fp is None:
